@@ -26,6 +26,7 @@ import (
 	"github.com/gorilla/mux"
 	"google.golang.org/grpc"
 
+	"github.com/chrislusf/seaweedfs/weed/pb"
 	"github.com/chrislusf/seaweedfs/weed/pb/master_pb"
 	"github.com/chrislusf/seaweedfs/weed/pb/volume_server_pb"
 	weed_server "github.com/chrislusf/seaweedfs/weed/server"
@@ -288,11 +289,11 @@ func (m *M13Raft) State() string {
 	}
 	return raft.Follower
 }
-func (m *M13Raft) GetState() string                             { return m.State() }
+func (m *M13Raft) GetState() string                            { return m.State() }
 func (m *M13Raft) AddEventListener(string, raft.EventListener) {}
-func (m *M13Raft) Peers() map[string]*raft.Peer                 { return map[string]*raft.Peer{} }
-func (m *M13Raft) Running() bool                                { return true }
-func (m *M13Raft) MemberCount() int                             { return len(m.group.members) }
+func (m *M13Raft) Peers() map[string]*raft.Peer                { return map[string]*raft.Peer{} }
+func (m *M13Raft) Running() bool                               { return true }
+func (m *M13Raft) MemberCount() int                            { return len(m.group.members) }
 
 type m13DeprecatedApply interface {
 	Apply(raft.Server) (interface{}, error)
@@ -443,7 +444,7 @@ func M13StartVolumeStub() (*M13VolumeStub, error) {
 			continue
 		}
 		m13UsedPorts[p] = true
-		s := &M13VolumeStub{Port: p, ln: ln, srv: grpc.NewServer()}
+		s := &M13VolumeStub{Port: p, ln: ln, srv: pb.NewGrpcServer()} // the volume server's own keepalive settings: a long RPC survives
 		volume_server_pb.RegisterVolumeServerServer(s.srv, s)
 		go func() { _ = s.srv.Serve(ln) }()
 		return s, nil
